@@ -10,7 +10,6 @@ import (
 	"io/ioutil"
 	"os"
 	"reflect"
-	"sort"
 	"strings"
 	"sync"
 	"syscall"
@@ -51,9 +50,9 @@ func init() {
 			"children run with RLIMIT_AS = 6 GiB so that an unsatisfiable allocation is a prompt fatal error of the child, not a host problem",
 		},
 		Cases: func(tier string) int {
-			// 98 destination types; quick gives each 40 cases, thorough 1500
+			// 98 destination types; quick gives each 40 cases, thorough 3000
 			if tier == "thorough" {
-				return 147000
+				return 294000
 			}
 			return 3920
 		},
@@ -68,7 +67,8 @@ func init() {
 }
 
 // floors: about half of the minimum observed over seeds 1..5 (quick, unchanged and
-// repaired tree); thorough runs 37.5 times as many cases.
+// repaired tree); thorough runs 75 times as many cases (counts are linear in the number
+// of cases: a 147000-case run met 37 x these values).
 func floors(tier string) map[string]int64 {
 	f := map[string]int64{
 		"values_roundtripped":                            18000,
@@ -108,7 +108,7 @@ func floors(tier string) map[string]int64 {
 	}
 	if tier == "thorough" {
 		for k, v := range f {
-			f[k] = v * 37
+			f[k] = v * 75
 		}
 	}
 	f["sacrificial_decodes"] = 2
@@ -913,5 +913,3 @@ func shrink(b []byte, tries int, pred func([]byte) bool) []byte {
 	}
 	return cur
 }
-
-var _ = sort.Strings
